@@ -12,7 +12,8 @@ from . import specgen as G
 def observe(binp, cases, with_model=False, shards=14):
     for i, c in enumerate(cases):
         c["id"] = i
-    recs = C.harness_parallel(binp, "spec", cases, shards=shards)
+    # a shard that gives no answer within 15 minutes is re-run case by case (60 s each): a validation that never returns is found
+    recs = C.harness_parallel(binp, "spec", cases, shards=shards, timeout=900, crash_timeout=60)
     byid = {r["id"]: r for r in recs}
     out = []
     have = [r for r in recs if "sx" in r] if with_model else []
